@@ -211,3 +211,11 @@ def relational_triggers(t, backend, flags, prob):
     if "like-wildcard" in flags and backend == "sqlalchemy":
         keys.append("sqla-like-wildcards-not-escaped")
     return keys
+
+
+def binding_triggers(t, backend):
+    return []
+
+
+def shorthand_triggers(kind, bname, t):
+    return ["base:%s:%s" % (kind, bname)]
